@@ -7,7 +7,7 @@ open Lean PonyVerif.Drive PonyVerif.Model.DbSession
   request {"op":"run", "env":{"should_retry":[exc..], "commit_fail":[null|exc, ..], "tx":[exc..]},
            "state":{"counter":n, "session":null|{"sid":..,"ddl":..,"ser":..}, "pending":[..], "committed":[..]}  (optional; default clean),
            "prog": P}
-  P = {"k":"skip"} | {"k":"write","w":n} | {"k":"mark","n":n} | {"k":"observe"} | {"k":"raise","e":exc}
+  P = {"k":"skip"} | {"k":"flush"} | {"k":"write","w":n} | {"k":"mark","n":n} | {"k":"observe"} | {"k":"raise","e":exc}
     | {"k":"seq","ps":[P..]} | {"k":"try","p":P,"catch":[exc..],"h":P}
     | {"k":"with","o":O,"p":P} | {"k":"call","o":O,"bodies":[P..]}   (execution i runs bodies[min(i, len-1)])
     | {"k":"bottle","resp":[exc..],"err":[exc..],"bodies":[P..]}   (isinstance(e, HTTPResponse) / isinstance(e, HTTPError))
@@ -120,6 +120,7 @@ partial def progOfJson (env : Env) (j : Json) : Except String Prog := do
   let k ← argStr j "k"
   match k with
   | "skip" => pure .skip
+  | "flush" => pure .skip          -- `flush()` moves pending changes into the open transaction: no effect on (pending, committed)
   | "write" => pure (.write (← argNat j "w"))
   | "mark" => pure (.mark (← argNat j "n"))
   | "observe" => pure .observe
